@@ -480,3 +480,16 @@ Example C05_position_example :
   Ok (mapn 10 [(k "a", leaf 3 (PInt 1)); (k "x", leaf 6 (PInt 9)); (k "b", leaf 3 (PInt 1)); (k "c", leaf 3 (PInt 1));
                (k "d", leaf 3 (PInt 1)); (k "e", leaf 7 (PInt 7))]).
 Proof. split; [now left|]. repeat split; vm_compute; reflexivity. Qed.
+
+(* Every remaining statement of this file, so that none is left unaudited. *)
+Print Assumptions C05_scalar_step_policy.
+Print Assumptions C05_scalar_override_refuted.
+Print Assumptions C05_array_left.
+Print Assumptions C05_array_right.
+Print Assumptions C05_aoh_deep.
+Print Assumptions C05_aoh_deep_missing_key.
+Print Assumptions C05_aoh_key.
+Print Assumptions C05_set_left.
+Print Assumptions C05_set_right.
+Print Assumptions C05_set_unique_new_members.
+Print Assumptions C05_node_eq_not_transitive_refuted.
